@@ -34,6 +34,9 @@ CLOCKS_QUICK = ["real", "plus3ms"]
 CLOCKS_THOROUGH = ["real", "frozen", "plus1us", "plus3ms", "backwards"]
 DATES_QUICK = ["real", "2020"]
 DATES_THOROUGH = ["real", "2020", "2035"]
+# process time zone (POSIX TZ strings, no tz database needed); "real" = whatever the check runs under
+TZS_QUICK = ["JST-9"]
+TZS_THOROUGH = ["JST-9", "EST5EDT", "UTC0"]
 
 
 # ------------------------------------------------------------------ environment shims
@@ -112,12 +115,17 @@ class Env:
 
     TIME_FNS = ("time", "perf_counter", "monotonic")
 
-    def __init__(self, clock, date):
-        self.clock, self.date = clock, date
+    def __init__(self, clock, date, tz="real"):
+        self.clock, self.date, self.tz = clock, date, tz
         self.saved = []
+        self._old_tz = None
 
     def __enter__(self):
         import sys as _s
+        if self.tz != "real":
+            self._old_tz = (os.environ.get("TZ"),)
+            os.environ["TZ"] = self.tz
+            _real_time.tzset()
         if self.clock != "real":
             proxy = ClockProxy(self.clock)
             for fn in self.TIME_FNS:
@@ -147,6 +155,13 @@ class Env:
         for m, n, v in reversed(self.saved):
             setattr(m, n, v)
         self.saved = []
+        if self._old_tz is not None:
+            if self._old_tz[0] is None:
+                os.environ.pop("TZ", None)
+            else:
+                os.environ["TZ"] = self._old_tz[0]
+            _real_time.tzset()
+            self._old_tz = None
 
 
 # ------------------------------------------------------------------ scenarios
@@ -179,6 +194,8 @@ CFG_EXTRA = {
     "sched_yield_t2": {"scheduler": {"enabled": True, "quantum_ms": 10 ** 9, "budgets": {"wall_ms": 10 ** 9, "t2_k": 2, "t3_ops": 8}}},
     "sched_yield_t1": {"scheduler": {"enabled": True, "quantum_ms": 10 ** 9, "budgets": {"wall_ms": 10 ** 9, "t1_iters": 1, "t3_ops": 8}}},
     "exact_only": {"t2": {"tiers": ["exact_semantic"], "exact_recent_days": 30}},
+    "reflect_drv": {"t2": {"sim_threshold": -1.0}, "t3": {"allow_reflection": True, "reflection": {"summary_tokens": 8}},
+                    "scheduler": {"budgets": {"ops_reflection": 2}}},
     "cluster_only": {"t2": {"tiers": ["cluster_semantic"], "clusters_top_m": 1}},
     "small_lru": {"t1": {"cache": {"max_entries": 1}}, "t2": {"cache": {"max_entries": 1}}},
 }
@@ -214,6 +231,12 @@ def scenario_list(thorough):
             for s in seqs:
                 if len(s) == 2:
                     out.append({"world": w, "cfg": cn, "turns": [list(t) for t in s], "driver": "batch"})
+    # a planner that asks for reflection (the rule-based planner never does; the LLM planner and custom planners can):
+    # the reflection write path stamps memory entries that later turns retrieve
+    for w in ("W1", "W2t"):
+        for s in seqs:
+            if len(s) >= 2:
+                out.append({"world": w, "cfg": "reflect_drv", "turns": [list(t) for t in s], "planner": "reflect"})
     return out, cfgs
 
 
@@ -224,17 +247,32 @@ def run_scenario(sc, cfgs, scratch, reset=True):
         W.reset_globals()
     ex = W.Exec(scratch, "c01")
     ex.activate()
+    _undo = None
     try:
         cfg = W.make_cfg(cfgs[sc["cfg"]], snap_dir=ex.snap_dir)
         state = _world(sc["world"])
-        if sc.get("driver") == "batch":
+        if sc.get("driver") == "batch" or sc.get("planner") == "reflect":
             from clematis.adapters.embeddings import BGEAdapter
             _enc = BGEAdapter(dim=32)
             for _e in state["mem_index"]._eps:
                 _e["vec_full"] = _enc.encode([_e.get("text", "")])[0]
         lines = []
+        if sc.get("planner") == "reflect":
+            import dataclasses as _dc
+            import clematis.engine.orchestrator as _orch_pkg
+            from clematis.engine.stages.t3 import deliberate as _real_deliberate
+            _undo = ("t3_deliberate" in vars(_orch_pkg), vars(_orch_pkg).get("t3_deliberate"))
+            _orch_pkg.t3_deliberate = lambda _c, _s, bundle: _dc.replace(_real_deliberate(bundle), reflection=True)
+            state["memory_index"] = state["mem_index"]  # reflections land in the index later turns retrieve from
+        else:
+            _undo = None
         for i, (agent, text) in enumerate(sc["turns"], start=1):
             ctx = W.make_ctx(cfg, agent, i)
+            if sc.get("planner") == "reflect":
+                del ctx.enc  # the engine's own deterministic encoder, the one the reflection write path embeds with
+                # logical clock: one day per turn, so that an entry stamped in turn i has a non-zero age in turn i+1
+                ctx.now_ms = W.NOW_MS + 86400000 * i
+                ctx.now = "2025-06-%02dT00:00:00Z" % (1 + i)
             if sc.get("driver") == "batch":
                 import clematis.engine.orchestrator as _orch
                 res = _orch._run_agents_parallel_batch(ctx, state, [(agent, text)])[0]
@@ -261,6 +299,15 @@ def run_scenario(sc, cfgs, scratch, reset=True):
         return parts
     finally:
         ex.close()
+        if sc.get("planner") == "reflect" and _undo is not None:
+            import clematis.engine.orchestrator as _orch_pkg
+            if _undo[0]:
+                _orch_pkg.t3_deliberate = _undo[1]
+            else:
+                try:
+                    delattr(_orch_pkg, "t3_deliberate")
+                except AttributeError:
+                    pass
 
 
 def worker_main(argv):
@@ -273,7 +320,7 @@ def worker_main(argv):
     scratch = spec["scratch"]
     my = [i for i in range(len(scs)) if i % spec["nshards"] == spec["shard"]]
     res = {}
-    envs = [(c, d) for c in spec["clocks"] for d in spec["dates"]]
+    envs = [(c, d, "real") for c in spec["clocks"] for d in spec["dates"]] + [("real", "real", z) for z in spec.get("tzs", [])]
     nruns = 0
     # harness self-check: same scenario, same environment, twice -> identical
     # (under a scripted clock and date, so that a genuine wall-clock dependence of the engine is reported as a
@@ -288,18 +335,18 @@ def worker_main(argv):
     for i in my:
         ref = None
         entry = {}
-        for (c, d) in envs:
-            with Env(c, d):
+        for (c, d, z) in envs:
+            with Env(c, d, z):
                 parts = run_scenario(scs[i], cfgs, scratch)
             nruns += 1
             if ref is None:
                 ref = parts
                 entry["ref"] = parts
             elif parts != ref:
-                entry["%s|%s" % (c, d)] = {k: v for k, v in parts.items() if ref.get(k) != v}
+                entry["%s|%s|%s" % (c, d, z)] = {k: v for k, v in parts.items() if ref.get(k) != v}
                 for k in ref:
                     if k not in parts:
-                        entry["%s|%s" % (c, d)][k] = None
+                        entry["%s|%s|%s" % (c, d, z)][k] = None
         res[str(i)] = entry
     # warm leg: every scenario again, process-global caches NOT reset, real environment
     for i in my:
@@ -598,12 +645,13 @@ def run(run):
         seeds.append(extra)
     clocks = CLOCKS_THOROUGH if thorough else CLOCKS_QUICK
     dates = DATES_THOROUGH if thorough else DATES_QUICK
+    tzs = TZS_THOROUGH if thorough else TZS_QUICK
     scs, cfgs = scenario_list(thorough)
     nshards = max(1, 16 // len(seeds))
     procs = []
     for s in seeds:
         for sh in range(nshards):
-            spec = {"thorough": thorough, "clocks": clocks, "dates": dates, "scratch": run.scratch, "nshards": nshards, "shard": sh}
+            spec = {"thorough": thorough, "clocks": clocks, "dates": dates, "tzs": tzs, "scratch": run.scratch, "nshards": nshards, "shard": sh}
             sp = os.path.join(run.scratch, "spec-%s-%d.json" % (s, sh))
             op = os.path.join(run.scratch, "out-%s-%d.json" % (s, sh))
             json.dump(spec, open(sp, "w"))
@@ -655,11 +703,12 @@ def run(run):
                     if label == "warm":
                         report("warm-process", i, part, entry["ref"].get(part), got, "second run in a warm process (hashseed %s)" % s)
                     else:
-                        c, dd = label.split("|")
-                        # attribute to the dimension that differs from the reference environment (first env = real|real)
-                        dim = "clock" if dd == dates[0] else ("wall-date" if c == clocks[0] else "clock+wall-date")
-                        report(dim, i, part, entry["ref"].get(part), got, "clock=%s wall-date=%s (hashseed %s)" % (c, dd, s))
-    run.add("validated", nvalid + (len(seeds) * len(scs) * (len(clocks) * len(dates))))
+                        c, dd, zz = label.split("|")
+                        # attribute to the dimension that differs from the reference environment (first env = real|real|real)
+                        dim = "timezone" if zz != "real" else ("clock" if dd == dates[0] else ("wall-date" if c == clocks[0] else "clock+wall-date"))
+                        report(dim, i, part, entry["ref"].get(part), got, "clock=%s wall-date=%s tz=%s (hashseed %s)" % (c, dd, zz, s))
+    run.add("validated", nvalid + (len(seeds) * len(scs) * (len(clocks) * len(dates) + len(tzs))))
+    run.notes["time_zones"] = tzs
     TU = threads_units(thorough)
     run.notes["thread_schedule_units"] = len(TU)
     items = _threads_roots(TU, run)
@@ -675,8 +724,8 @@ def run(run):
     run.sample(scs[len(scs) // 2])
     run.sample(scs[-1])
     run.rule = ("scenarios = worlds{W0,W1,W2+ts-less episodes} x %d configurations (one per gate on) x turn sequences over {A,B}x{2 texts}; "
-                "environments = hash seeds %s (one process each) x clock profiles %s x wall dates %s, plus a warm re-run in the same process; "
-                "non-trivial = >=2 turns; outcomes = distinct reference digests" % (len(cfgs), seeds, clocks, dates))
+                "environments = hash seeds %s (one process each) x (clock profiles %s x wall dates %s + process time zones %s), plus a warm re-run in the same process; "
+                "non-trivial = >=2 turns; outcomes = distinct reference digests" % (len(cfgs), seeds, clocks, dates, tzs))
     run.assume("hash seeds: a fixed list plus 1000+VERIF_SEED, not all 2^32")
     run.assume("thread timing: the T1 / T2 stage pools are explored under the baton scheduler (2-3 workers, every schedule with <= 1 preemption, "
                "<= 2 for two-worker T1 units in the thorough tier; scheduling points = line events of t1.py resp. t2/parallel.py + memory/index.py; "
@@ -708,7 +757,8 @@ def replay(case):
             env = case["env"]
             c = env.split("clock=")[1].split(" ")[0]
             dd = env.split("wall-date=")[1].split(" ")[0]
-            with Env(c, dd):
+            zz = env.split("tz=")[1].split(" ")[0] if "tz=" in env else "real"
+            with Env(c, dd, zz):
                 got = run_scenario(sc, cfgs, d)
         out = []
         for part in sorted(set(ref) | set(got)):
